@@ -326,6 +326,9 @@ class Engine:
 
     # ---------------- coercions ----------------
     def to_real(self, v):
+        import numpy as _np
+        if isinstance(v, _np.generic):
+            v = v.item()
         if isinstance(v, bool):
             return z3.RealVal(1 if v else 0)
         if isinstance(v, int):
@@ -349,6 +352,9 @@ class Engine:
 
     def to_arith(self, v):
         """z3 arithmetic term keeping Int-ness"""
+        import numpy as _np
+        if isinstance(v, _np.generic):
+            v = v.item()
         if isinstance(v, bool):
             return z3.IntVal(1 if v else 0)
         if isinstance(v, int):
@@ -361,6 +367,8 @@ class Engine:
         """z3 Bool / python bool view (truthiness) without forking"""
         if isinstance(v, bool):
             return v
+        if self.is_native_concrete(v):
+            return self._concrete(lambda: bool(v))
         if v is None:
             return False
         if is_zbool(v):
@@ -1086,9 +1094,12 @@ class Engine:
             return
         from .tensor import PT
         if isinstance(c, PT):
-            raise Unsupported("item assignment on tensor")
+            return c.setitem(self, k, v)
         if isinstance(c, _MapLike):
             return c.setitem(self, k, v)
+        if self.is_native_concrete(c) and not is_sym(k) and not _contains_sym(k) and not is_sym(v) and not _contains_sym(v):
+            self._concrete(lambda: c.__setitem__(k, v))
+            return
         raise Unsupported(f"setitem on {type(c).__name__} with key {type(k).__name__}")
 
     def to_index(self, k):
@@ -1504,19 +1515,25 @@ class Engine:
 
     def compare(self, op, a, b):
         from .tensor import PT
-        if isinstance(a, PT) or isinstance(b, PT):
-            from .tensor import pt_compare
-            return pt_compare(self, op, a, b)
         if isinstance(op, (ast.Is, ast.IsNot)):
             r = self._is(a, b)
             if isinstance(op, ast.IsNot):
                 r = (not r) if isinstance(r, bool) else z3.Not(r)
             return r
+        if (isinstance(a, PT) or isinstance(b, PT)) and not isinstance(op, (ast.In, ast.NotIn)):
+            from .tensor import pt_compare
+            return pt_compare(self, op, a, b)
         if isinstance(op, (ast.In, ast.NotIn)):
             r = self._contains(b, a)
             if isinstance(op, ast.NotIn):
                 r = (not r) if isinstance(r, bool) else z3.Not(r)
             return r
+        import numpy as _np
+        if (isinstance(a, _np.ndarray) or isinstance(b, _np.ndarray)) and not is_sym(a) and not is_sym(b) \
+                and not _contains_sym(a) and not _contains_sym(b):
+            fn = {ast.Lt: operator.lt, ast.LtE: operator.le, ast.Gt: operator.gt, ast.GtE: operator.ge,
+                  ast.Eq: operator.eq, ast.NotEq: operator.ne}[type(op)]
+            return self._concrete(lambda: fn(a, b))
         if isinstance(op, ast.Eq):
             return self.veq(a, b)
         if isinstance(op, ast.NotEq):
@@ -1655,8 +1672,8 @@ class Engine:
             raise PyRaise(AttributeError, (name,))
         if isinstance(o, _MapLike):
             return o.getattr(self, name)
-        from .tensor import PT, TensorLib
-        if isinstance(o, TensorLib):
+        from .tensor import PT, TensorLib, _Dist
+        if isinstance(o, (TensorLib, _Dist)):
             return o.getattr(self, name)
         if isinstance(o, PT):
             return o.getattr(self, name)
@@ -1668,12 +1685,36 @@ class Engine:
             raise Unsupported(f"attribute {name} of symbolic list")
         if isinstance(o, (list, dict, str, tuple, set, int, float)):
             return self.builtins_model.container_method(self, o, name)
+        if self.is_native_concrete(o):
+            # concrete library objects (slice, numpy arrays, ...) are evaluated by CPython itself
+            try:
+                v = getattr(o, name)
+            except AttributeError:
+                raise PyRaise(AttributeError, (name,))
+            if callable(v) and not isinstance(v, type):
+                def native_call(*a, _v=v, _n=name, **k):
+                    if any(_contains_sym(x) or is_sym(x) for x in a) or any(is_sym(x) for x in k.values()):
+                        raise Unsupported(f"native method {_n} with symbolic argument")
+                    return self._concrete(lambda: _v(*a, **k))
+                return NativeFn(f"native:{type(o).__name__}.{name}", native_call)
+            return v
+        if isinstance(o, NativeFn) and o.name == "dict" and name == "fromkeys":
+            def fromkeys(keys, value=None):
+                ks = self.iterate(keys)
+                if any(is_sym(k) for k in ks):
+                    raise Unsupported("dict.fromkeys with symbolic keys")
+                return dict.fromkeys(ks, value)
+            return NativeFn("dict.fromkeys", fromkeys)
         if isinstance(o, FuncV):
             if name == "__name__":
                 return o.node.name
         if isinstance(o, Bound):
             return self.getattr(o.func, name)
         raise Unsupported(f"getattr({type(o).__name__}, {name!r})")
+
+    def is_native_concrete(self, o):
+        import numpy as _np
+        return isinstance(o, (slice, range, _np.ndarray, _np.generic, bytes, frozenset))
 
     def bind_member(self, f, obj, cls):
         if isinstance(f, FuncV):
@@ -1781,6 +1822,8 @@ class Engine:
             f, _ = c.cls.lookup("__getitem__")
             if f is not None:
                 return self.call(Bound(f, c), [k], {})
+        if self.is_native_concrete(c) and not is_sym(k) and not _contains_sym(k):
+            return self._concrete(lambda: c[k])
         if isinstance(c, (list, tuple, dict, str, range)):
             if isinstance(k, slice) and any(is_sym(p) for p in (k.start, k.stop, k.step)):
                 raise Unsupported("symbolic slice bounds")
@@ -1815,6 +1858,8 @@ class Engine:
         from .tensor import PT
         if isinstance(v, PT):
             return v.iterate(self)
+        if self.is_native_concrete(v):
+            return self._concrete(lambda: list(v))
         if isinstance(v, Rec):
             f, _ = v.cls.lookup("__iter__")
             if f is not None:
@@ -1987,8 +2032,30 @@ class Engine:
             frame[a.kwarg.arg] = {}
         return frame
 
+    def ex_Yield(self, node, env):
+        e = env
+        while e is not None and "__yields__" not in e.frame:
+            e = e.parent
+        if e is None:
+            raise Unsupported("yield outside generator", node)
+        e.frame["__yields__"].append(self.eval(node.value, env) if node.value is not None else None)
+        return None
+
+    def ex_YieldFrom(self, node, env):
+        e = env
+        while e is not None and "__yields__" not in e.frame:
+            e = e.parent
+        if e is None:
+            raise Unsupported("yield from outside generator", node)
+        e.frame["__yields__"].extend(self.iterate(self.eval(node.value, env)))
+        return None
+
     def run_function(self, f, args, kwargs):
         frame = self.bind_args(f, args, kwargs)
+        if getattr(f, "is_generator", None) is None:
+            f.is_generator = any(isinstance(n, (ast.Yield, ast.YieldFrom)) for n in ast.walk(f.node))
+        if f.is_generator:
+            frame["__yields__"] = []      # generators are run eagerly; the yielded values form a list
         if f.cls is not None:
             frame["__class__"] = f.cls
         env = Env(frame, f.env, f.module, qualprefix=f.qualname + ".", in_function=True)
@@ -2000,9 +2067,13 @@ class Engine:
         try:
             self.exec_block(f.node.body, env)
         except ReturnSignal as r:
+            if f.is_generator:
+                return frame["__yields__"]
             return r.value
         finally:
             self.path.depth = depth
+        if f.is_generator:
+            return frame["__yields__"]
         return None
 
     def call_ext(self, f, args, kwargs):
